@@ -722,6 +722,37 @@ fn fault_step(w: &mut World, ctx: &mut Ctx, st: &Step) -> StepResult {
             ctx.shape_mix(om.shape_hash() ^ 0x23);
             StepResult::Produced
         }
+        "CompForged" => {
+            // a forger rewrites the CONTENT of a compressed element (a structure-aware mutation that makes it ill-formed
+            // as an envelope: an assertion map with two pairs, a node without assertions, a non-assertion in a slot
+            // ...), compresses it again with a valid checksum and declares the genuine digest: the data is corrupt and
+            // must be rejected on uncompress
+            let genuine = orig.tagged_cbor().to_cbor_data();
+            let mu = match crate::wire::struct_mutate(&genuine, st.arg(1), st.arg(2), st.arg(3)) {
+                Some(m) if m.must_reject && m.bytes != genuine => m,
+                _ => return StepResult::Skipped,
+            };
+            ctx.fault("byzantine.forged-content");
+            let comp = Compressed::from_uncompressed_data(mu.bytes.clone(), Some(to_lib_digest(&om.digest())));
+            let forged = match Envelope::try_from(comp) {
+                Ok(e) => e,
+                Err(_) => return StepResult::Skipped,
+            };
+            let as_subject = st.arg(4) % 2 == 0;
+            let forged = if as_subject { forged.add_assertion("k", 1) } else { forged };
+            let delivered = match decode_guarded(&forged.to_cbor_data()) {
+                Decoded::Ok(e) => e,
+                _ => return StepResult::Skipped,
+            };
+            ctx.checked();
+            match guarded(|| if as_subject { delivered.uncompress_subject() } else { delivered.uncompress() }) {
+                Ok(Ok(_)) => ctx.violate("C13.corrupt", format!("a compressed element whose content is not a well-formed envelope ({}) was opened by uncompress", mu.name)),
+                Ok(Err(_)) => ctx.probe("forged-content-refused"),
+                Err(p) => ctx.violate_sig("C13.fault-panics", format!("uncompress of forged content panicked instead of rejecting: {}", p), p),
+            }
+            ctx.t("CompForged");
+            StepResult::Produced
+        }
         "CompMisdeclare" | "CompMisdirected" => {
             // a compressed element whose content does not hash to the digest it declares:
             // built by a Byzantine party, or the result of a misdirected write (another document's
@@ -766,7 +797,7 @@ pub fn run(scn: &Scenario, ctx: &mut Ctx) {
         ctx.step = i;
         ctx.sim_ticks += 1;
         let r = match st.op.as_str() {
-            "EncRoundtrip" | "EncObscured" | "EncDecorated" | "CompDecorated" | "EncTamper" | "EncBitflip" | "EncFlipAll" | "EncMisdeclare" | "CompRoundtrip" | "CompTamper" | "CompBitflip" | "CompFlipAll" | "CompMisdeclare" | "CompMisdirected" => fault_step(&mut w, ctx, st),
+            "EncRoundtrip" | "EncObscured" | "EncDecorated" | "CompDecorated" | "EncTamper" | "EncBitflip" | "EncFlipAll" | "EncMisdeclare" | "CompRoundtrip" | "CompTamper" | "CompBitflip" | "CompFlipAll" | "CompMisdeclare" | "CompMisdirected" | "CompForged" => fault_step(&mut w, ctx, st),
             _ => hist::exec_step(&mut w, ctx, st),
         };
         if !matches!(r, StepResult::Skipped) {
@@ -813,7 +844,13 @@ pub fn generate(property: &str, r: &mut SimRng, seed: u64) -> Scenario {
                 2 => scn.push("CompDecorated", &[ds(r), ds(r), ds(r), r.below(120)]),
                 3..=5 => scn.push("CompTamper", &[ds(r), r.below(2), r.below(4), r.next() % 100000, r.below(6)]),
                 6..=7 => scn.push("CompBitflip", &[ds(r), r.below(2), r.next() % 1000000]),
-                8 => scn.push("CompMisdeclare", &[ds(r), ds(r), r.below(2)]),
+                8 => {
+                    if r.chance(1, 2) {
+                        scn.push("CompMisdeclare", &[ds(r), ds(r), r.below(2)])
+                    } else {
+                        scn.push("CompForged", &[ds(r), if r.chance(1, 3) { 6 } else { r.below(crate::wire::N_STRUCT_KINDS) }, r.below(16), r.below(1000), r.below(2)])
+                    }
+                }
                 _ => scn.push("CompMisdirected", &[ds(r), ds(r), r.below(2)]),
             }
         }
